@@ -63,7 +63,7 @@ def run(ctx):
 def live(ctx):
     tr = os.path.join(ctx.scratch, "queued.ndjson")
     ptr = os.path.join(ctx.scratch, "queued-probes.ndjson")
-    p = ctx.run_harness(["queued-trace", "-out", tr, "-probes", ptr, "-runs", str(ctx.pick(2, 12)), "-clients", str(ctx.pick(5, 6)),
+    p = ctx.run_harness(["queued-trace", "-out", tr, "-probes", ptr, "-runs", str(ctx.pick(2, 24)), "-clients", str(ctx.pick(5, 6)),
                          "-reqs", str(ctx.pick(15, 25)), "-faults", str(ctx.pick(4, 6)), "-dir", ctx.sub("qw")], timeout=3000)
     st = json.loads(p.stdout.strip().splitlines()[-1])
     ctx.cov["driver"] = st
